@@ -97,6 +97,7 @@ func fromBytes(data []byte) (byte, mh.Multihash, error) {
 // `StartProviding` was called after `StopProviding` for the same multihash.
 func getOperations(dequeued [][]byte) ([][]mh.Multihash, error) {
 	stopProv := make(map[string]struct{})
+	stopFirst := make(map[string]struct{})
 	ops := [lastOp - 1][]mh.Multihash{} // don't store stop ops
 
 	for _, bs := range dequeued {
@@ -106,9 +107,17 @@ func getOperations(dequeued [][]byte) ([][]mh.Multihash, error) {
 		}
 		switch op {
 		case provideOnceOp:
+			if _, ok := stopProv[string(h)]; ok {
+				// The stop was submitted BEFORE this provide-once: it has to be
+				// applied before it, or it would remove the key from the provide
+				// queue again.
+				delete(stopProv, string(h))
+				stopFirst[string(h)] = struct{}{}
+			}
 			ops[provideOnceOp] = append(ops[provideOnceOp], h)
 		case startProvidingOp, forceStartProvidingOp:
 			delete(stopProv, string(h))
+			delete(stopFirst, string(h))
 			ops[op] = append(ops[op], h)
 		case stopProvidingOp:
 			stopProv[string(h)] = struct{}{}
@@ -118,7 +127,13 @@ func getOperations(dequeued [][]byte) ([][]mh.Multihash, error) {
 	for hstr := range stopProv {
 		stopOps = append(stopOps, mh.Multihash(hstr))
 	}
-	return append(ops[:], stopOps), nil
+	stopFirstOps := make([]mh.Multihash, 0, len(stopFirst))
+	for hstr := range stopFirst {
+		stopFirstOps = append(stopFirstOps, mh.Multihash(hstr))
+	}
+	// index stopProvidingOp: stops executed last; index lastOp: stops that
+	// precede a provide-once of the same key, executed before ProvideOnce
+	return append(ops[:], stopOps, stopFirstOps), nil
 }
 
 // executeOperation executes a provider operation on the underlying provider
@@ -176,6 +191,7 @@ func (s *SweepingProvider) worker() {
 		// enqueue the multihash a second time to the provide queue.
 		s.executeOperation(func(keys ...mh.Multihash) error { return s.Provider.StartProviding(true, keys...) }, ops[forceStartProvidingOp])
 		s.executeOperation(func(keys ...mh.Multihash) error { return s.Provider.StartProviding(false, keys...) }, ops[startProvidingOp])
+		s.executeOperation(s.Provider.StopProviding, ops[lastOp])
 		s.executeOperation(s.Provider.ProvideOnce, ops[provideOnceOp])
 		// Process `StopProviding` last, so that multihashes that should have been
 		// provided, and then stopped provided in the same batch are provided only
